@@ -4,6 +4,7 @@ import numpy as np
 from torch.autograd import Function
 from pytorch_wavelets.utils import reflect
 import pywt
+from pytorch_wavelets._verif import point as _vp
 
 
 def roll(x, n, dim, make_even=False):
@@ -130,6 +131,7 @@ def afb1d(x, h0, h1, mode='zero', dim=-1):
     if h1.shape != tuple(shape):
         h1 = h1.reshape(*shape)
     h = torch.cat([h0, h1] * C, dim=0)
+    _vp('afb1d', mode=mode, dim=d, N=N, L=L, C=C)
 
     if mode == 'per' or mode == 'periodization':
         if x.shape[dim] % 2 == 1:
@@ -165,6 +167,7 @@ def afb1d(x, h0, h1, mode='zero', dim=-1):
         else:
             raise ValueError("Unkown pad type: {}".format(mode))
 
+    _vp('afb1d.out', mode=mode, dim=d, N=N, L=L, M=lohi.shape[d])
     return lohi
 
 
@@ -217,6 +220,7 @@ def afb1d_atrous(x, h0, h1, mode='periodic', dim=-1, dilation=1):
     # Calculate the pad size
     L2 = (L * dilation)//2
     pad = (0, 0, L2-dilation, L2) if d == 2 else (L2-dilation, L2, 0, 0)
+    _vp('afb1d_atrous', mode=mode, dim=d, N=x.shape[d], L=L, dilation=dilation, pad=pad)
     x = mypad(x, pad=pad, mode=mode)
     lohi = F.conv2d(x, h, groups=C, dilation=dilation)
 
@@ -249,6 +253,7 @@ def sfb1d(lo, hi, g0, g1, mode='zero', dim=-1):
     s = (2, 1) if d == 2 else (1,2)
     g0 = torch.cat([g0]*C,dim=0)
     g1 = torch.cat([g1]*C,dim=0)
+    _vp('sfb1d', mode=mode, dim=d, M=lo.shape[d], Mhi=hi.shape[d], L=L, C=C)
     if mode == 'per' or mode == 'periodization':
         y = F.conv_transpose2d(lo, g0, stride=s, groups=C) + \
             F.conv_transpose2d(hi, g1, stride=s, groups=C)
@@ -349,6 +354,7 @@ class AFB2D(Function):
     @staticmethod
     def backward(ctx, low, highs):
         dx = None
+        _vp('AFB2D.backward', needs=tuple(ctx.needs_input_grad[:1]), mode=ctx.mode)
         if ctx.needs_input_grad[0]:
             mode = ctx.mode
             h0_row, h1_row, h0_col, h1_col = ctx.saved_tensors
@@ -407,6 +413,7 @@ class AFB1D(Function):
     @staticmethod
     def backward(ctx, dx0, dx1):
         dx = None
+        _vp('AFB1D.backward', needs=tuple(ctx.needs_input_grad[:1]), mode=ctx.mode)
         if ctx.needs_input_grad[0]:
             mode = ctx.mode
             h0, h1 = ctx.saved_tensors
@@ -681,6 +688,7 @@ class SFB2D(Function):
     @staticmethod
     def backward(ctx, dy):
         dlow, dhigh = None, None
+        _vp('SFB2D.backward', needs=tuple(ctx.needs_input_grad[:2]), mode=ctx.mode)
         if ctx.needs_input_grad[0] or ctx.needs_input_grad[1]:
             mode = ctx.mode
             g0_row, g1_row, g0_col, g1_col = ctx.saved_tensors
@@ -730,6 +738,7 @@ class SFB1D(Function):
     @staticmethod
     def backward(ctx, dy):
         dlow, dhigh = None, None
+        _vp('SFB1D.backward', needs=tuple(ctx.needs_input_grad[:2]), mode=ctx.mode)
         if ctx.needs_input_grad[0] or ctx.needs_input_grad[1]:
             mode = ctx.mode
             g0, g1, = ctx.saved_tensors
